@@ -232,7 +232,13 @@ def _work(i):
                 d.update(reproduced=True, why=why, scenario=sc.to_json(), observed={p: o.text for p, o in obsv.items()})
                 break
         if not d["reproduced"]:
+            if c.assumed:
+                # on the committed assumed-unreachable list and confirmed not to reproduce: an assumption, not a result
+                ctx.rec["assumed_unreachable"].append({"site": c.label[:120], "invariant": c.assumed, "replayed": len(c.scenarios)})
+                continue
             d["why"] = "counterexample did not reproduce natively: %s" % json.dumps(last, default=str)[:600]
+        else:
+            ctx.rec["status"] = "violated"
         cands.append(d)
     # if something reproduced, the cap message of the others is noise, not an inconclusive result
     if any(x["reproduced"] for x in cands):
